@@ -24,7 +24,7 @@
    walker reported), so it does not appear at this layer. *)
 From Coq Require Import List NArith Bool Sorting.Sorted.
 From FS Require Import Sx Model.Path Model.Stat Model.Diff Model.AbsDest
-  Proofs.DiffP Proofs.DiffSpecP Proofs.AbsDestP Proofs.ReceiveP.
+  Proofs.DiffP Proofs.DiffSpecP Proofs.AbsDestP Proofs.ReceiveP Proofs.FilterRecvP.
 Import ListNotations.
 Open Scope N_scope.
 
@@ -157,6 +157,25 @@ Theorem resync_after_transfer_noop : forall (H : bytes -> bytes) (hdr : stat -> 
   {| ds_map := dest_of A'; ds_reqs := []; ds_notifs := []; ds_changes := []; ds_err := false |}.
 Proof. exact resync_after_transfer_noop_proof. Qed.
 
+(* ... also through the receiver's Filter (ReceiveOpt.Filter: handed to the differ AND to the
+   writer; [receive_abs_f wf], Model/AbsDest.v): what lands at the destination is the stat AS
+   REWRITTEN by the filter, and that is what the differ compares the destination with — for
+   every filter that is a function of (path, stat), never answers "skip" and keeps path, type
+   bits and link name ([filter_ok]: uid/gid remapping, mode masks, timestamp rounding, ...).  So
+   after a transfer through the filter, a second synchronisation of the unchanged source
+   through the same filter hands nothing to the writer.  Hypotheses on the FILTERED source
+   ([filter_entries wf B]): same identity key => same bytes; link entries carry the metadata of
+   the entry they name (the filter treats the names of one inode alike). *)
+Theorem resync_after_transfer_noop_filtered : forall wf, filter_ok wf ->
+  forall (H : bytes -> bytes) (hdr : stat -> bytes) d A B,
+  wf_listing (map fst A) -> wf_listing (map fst B) -> links_ok B ->
+  identity_faithful d A (filter_entries wf B) -> links_meta (filter_entries wf B) ->
+  let r := receive_abs_f wf H hdr Fresh d A B in
+  let A' := dest_listing B (ds_map r) in
+  receive_abs_f wf H hdr Fresh DMetadata A' B =
+  {| ds_map := dest_of A'; ds_reqs := []; ds_notifs := []; ds_changes := []; ds_err := false |}.
+Proof. exact resync_after_transfer_noop_f_proof. Qed.
+
 (* With differencing disabled every regular file of the source is re-requested. *)
 Theorem diff_none_requests_all : forall (H : bytes -> bytes) (hdr : stat -> bytes) A B,
   wf_listing (map fst A) -> wf_listing (map fst B) -> links_ok B ->
@@ -194,6 +213,7 @@ Print Assumptions rewritten_get_new_inode.
 Print Assumptions hard_link_joins_inode.
 Print Assumptions receive_resync_noop.
 Print Assumptions resync_after_transfer_noop.
+Print Assumptions resync_after_transfer_noop_filtered.
 Print Assumptions diff_none_requests_all.
 
 (* ------------------------------------------------------------------ examples *)
@@ -305,3 +325,37 @@ Example dishonest_link_shows_inode_metadata :
   /\ nth_error (ds_notifs r) 3 = Some (KAdd, [100], Some (mk [100] 384 7 0 3 9 pc 0 0, []))
   /\ ds_reqs r = [pa; pc].
 Proof. cbv zeta. split; [apply links_ok_b_sound; vm_compute; reflexivity|]. vm_compute. repeat split; reflexivity. Qed.
+
+(* ---- source equivalence (tools/go2coq; gen/SrcFns.v is regenerated from /repo on every run): the
+        Gallina definition translated from diff_containerd.go's compareStat (field accesses mapped to
+        Model/Stat.v's record) equals the model compare_stat and never returns an error ---- *)
+From FSGen Require SrcFns.
+From FS Require Proofs.Src.CompareStatEq.
+Theorem compareStat_src_eq :
+  forall a b, SrcFns.compareStat a b = (compare_stat a b, None).
+Proof. exact CompareStatEq.compareStat_src_eq. Qed.
+Print Assumptions compareStat_src_eq.
+
+(* sameFile itself (named results, the iota constants DiffMetadata = 0 / DiffNone = 1 of receive.go, the
+   struct currentPath, the method Stat.IsDir of types/stat.go — all read from the source on this run;
+   compareFileContent, which reads the files, is a parameter): equal to the model same_file for both
+   differs the model covers, whatever compareFileContent does; for any other differ value (DiffContent)
+   it is the metadata comparison followed, only when that says "same", by compareFileContent. *)
+From FS Require Proofs.Src.SameFileEq Proofs.Src.StatIsDirEq.
+Theorem sameFile_src_eq :
+  forall cmp f1 f2 d,
+    SrcFns.sameFile cmp f1 f2 (match d with DMetadata => BinNums.Z0 | DNone => BinNums.Zpos BinNums.xH end) =
+    (same_file d (SrcFns.currentPath_stat f1) (SrcFns.currentPath_stat f2), None).
+Proof. exact SameFileEq.sameFile_src_eq. Qed.
+Theorem sameFile_content_src_eq :
+  forall cmp f1 f2 z, z <> BinNums.Z0 -> z <> BinNums.Zpos BinNums.xH ->
+    SrcFns.sameFile cmp f1 f2 z =
+    if same_file DMetadata (SrcFns.currentPath_stat f1) (SrcFns.currentPath_stat f2)
+    then cmp (SrcFns.currentPath_path f1) (SrcFns.currentPath_path f2)
+    else (false, None).
+Proof. exact SameFileEq.sameFile_content_src_eq. Qed.
+Theorem Stat_IsDir_src_eq : forall s, SrcFns.Stat_IsDir s = st_is_dir s.
+Proof. exact StatIsDirEq.Stat_IsDir_src_eq. Qed.
+Print Assumptions sameFile_src_eq.
+Print Assumptions sameFile_content_src_eq.
+Print Assumptions Stat_IsDir_src_eq.
